@@ -162,6 +162,8 @@ def single_defs(fn):
         if isinstance(n, ast.arg):
             count[n.arg] = count.get(n.arg, 0) + 2
     out = {}
+    # parameters that are never re-assigned are fixed values
+    fixed = {a.arg for a in fn.args.args + fn.args.kwonlyargs if count.get(a.arg) == 2}
     changed = True
     while changed:
         changed = False
@@ -170,7 +172,7 @@ def single_defs(fn):
                 continue
             ok = True
             for x in ast.walk(e):
-                if isinstance(x, ast.Name) and x.id != "self" and x.id not in out:
+                if isinstance(x, ast.Name) and x.id != "self" and x.id not in out and x.id not in fixed:
                     ok = False
                 if isinstance(x, (ast.Call, ast.Subscript, ast.Lambda, ast.IfExp)):
                     ok = False
@@ -194,3 +196,52 @@ class SubstDefs(ast.NodeTransformer):
 def subst_defs(node, defs):
     import copy
     return SubstDefs(defs).visit(copy.deepcopy(node)) if defs else node
+
+
+def find_cache_wrapper(repo):
+    """the function that wraps a class's generator function so that one generator per instance is created:
+    a nested function (in CheckpointSchedule.__init_subclass__ or in a module-level function it calls) with the
+    instance as only parameter that stores `self.A = F(self)`.  -> (rel, container, wrapper, wrapped name) or None"""
+    rel, base = repo.find_class("CheckpointSchedule")
+    sub = repo.method(rel, "CheckpointSchedule", "__init_subclass__", required=False)
+    if sub is None:
+        return None
+    containers = [sub]
+    for n in ast.walk(sub):
+        if isinstance(n, ast.Call) and isinstance(n.func, ast.Name):
+            f = repo.func(rel, n.func.id, required=False)
+            if f is not None:
+                containers.append(f)
+    found = []
+    for cont in containers:
+        for w in ast.walk(cont):
+            if not isinstance(w, ast.FunctionDef) or w is cont or len(w.args.args) != 1:
+                continue
+            first = w.args.args[0].arg
+            for a in ast.walk(w):
+                # the generator is created by calling the wrapped function on the instance; where it is stored (on the
+                # instance, or wrongly on the class / in a closure cell) is what the rules then look at
+                if isinstance(a, ast.Assign) and len(a.targets) == 1 and isinstance(a.targets[0], (ast.Attribute, ast.Subscript, ast.Name)) \
+                        and isinstance(a.value, ast.Call) and isinstance(a.value.func, ast.Name) \
+                        and [ast.unparse(x) for x in a.value.args] == [first]:
+                    found.append((rel, cont, w, a.value.func.id))
+    uniq = {id(f[2]): f for f in found}
+    return list(uniq.values())[0] if len(uniq) == 1 else None
+
+
+def wrapper_tests(w):
+    """attributes whose presence the wrapper tests before creating the generator: hasattr(self, "A"), or
+    `try: return self.A / except AttributeError:`"""
+    first = w.args.args[0].arg if w.args.args else "self"
+    tests = {n.args[1].value for n in ast.walk(w) if isinstance(n, ast.Call) and isinstance(n.func, ast.Name)
+             and n.func.id == "hasattr" and len(n.args) == 2 and isinstance(n.args[1], ast.Constant)
+             and ast.unparse(n.args[0]) == first}
+    for t in ast.walk(w):
+        if isinstance(t, ast.Try) and t.handlers and all(
+                h.type is not None and ast.unparse(h.type) in ("AttributeError", "(AttributeError,)") for h in t.handlers):
+            for x in t.body:
+                for n in ast.walk(x):
+                    if isinstance(n, ast.Attribute) and isinstance(n.ctx, ast.Load) and isinstance(n.value, ast.Name) \
+                            and n.value.id == first:
+                        tests.add(n.attr)
+    return tests
